@@ -77,12 +77,14 @@ func (g *gen) extIn(which int) (string, string, []string) {
 		q := g.s.importName(e.Dir)
 		names = append(names, "Option", "Page")
 		switch which {
+		// each expression mentions the fresh type x, so that two draws never
+		// denote the same Go type (they are distinct types in the model)
 		case 14:
-			return q + ".Option[" + q + ".Page[time.Duration]]", "ext-generic-nested-foreign-arg", names
+			return q + ".Option[" + q + ".Page[map[" + x + "]time.Duration]]", "ext-generic-nested-foreign-arg", names
 		case 15:
 			return "func(" + x + ") " + q + ".Page[*big.Int]", "ext-generic-in-func-result", names
 		default:
-			return "map[string]" + q + ".Option[[]" + q + ".Page[netip.Addr]]", "ext-generic-nested-in-map", names
+			return "map[" + x + "]" + q + ".Option[[]" + q + ".Page[netip.Addr]]", "ext-generic-nested-in-map", names
 		}
 	}
 	switch which {
@@ -352,6 +354,14 @@ func (g *gen) foreignChain(depth int) int {
 		feat = "foreign-same-named-sibling-packages-in-one-type"
 		names = []string{g.s.Types[a].Name, g.s.Types[b].Name}
 	}
+	if g.usedRaw == nil {
+		g.usedRaw = map[string]bool{}
+	}
+	if g.usedRaw[raw] {
+		// the same Go type a second time would be a second supplier of one type
+		return g.boundIface(depth)
+	}
+	g.usedRaw[raw] = true
 	g.s.Dynamic = false
 	g.feature(feat)
 	for _, w := range []string{"url", "URL", "Duration", "netip", "Addr", "big", "Int"} {
